@@ -304,6 +304,65 @@ Proof.
   eexists. exists r. exact Hr.
 Qed.
 
+(* the counting loop [hash_run] (what the judge runs on the ground long-run corpus): its result
+   is [hash_loop]'s, its count is the first offset at which x^3 + 3 has a square root *)
+Lemma hash_run_loop pm ms fuel : forall x,
+  option_map snd (hash_run pm ms fuel x) = hash_loop pm ms fuel x.
+Proof.
+  induction fuel as [|f IH]; intros x; cbn [hash_run hash_loop]; [reflexivity|].
+  destruct (ms _); [reflexivity|]. rewrite <- IH.
+  destruct (hash_run pm ms f (x + 1)) as [[n r]|]; reflexivity.
+Qed.
+
+Lemma hash_run_first pm ms fuel : forall x n r, hash_run pm ms fuel x = Some (n, r) ->
+  0 <= n < Z.of_nat fuel /\
+  (forall i, 0 <= i < n -> ms ((x + i) * (x + i) * (x + i) + curveB) = None) /\
+  exists y, ms ((x + n) * (x + n) * (x + n) + curveB) = Some y /\ r = g1_from_ints pm (x + n) y.
+Proof.
+  induction fuel as [|f IH]; intros x n r; cbn [hash_run]; [discriminate|].
+  destruct (ms (x * x * x + curveB)) as [y|] eqn:E.
+  - intros [= <- <-]. split; [lia|]. split; [intros i Hi; lia|].
+    exists y. rewrite Z.add_0_r. auto.
+  - destruct (hash_run pm ms f (x + 1)) as [[n' r']|] eqn:H; [|discriminate].
+    intros [= <- <-]. apply IH in H. destruct H as [Hn [Hnone [y [Hy Hr]]]].
+    split; [lia|]. split.
+    + intros i Hi. destruct (Z.eq_dec i 0) as [->|Hi0]; [rewrite Z.add_0_r; exact E|].
+      replace (x + i) with (x + 1 + (i - 1)) by lia. apply Hnone. lia.
+    + exists y. replace (x + (n' + 1)) with (x + 1 + n') by lia. auto.
+Qed.
+
+Lemma g1_from_ints_x pm x y x' y' : g1_from_ints pm x y = R1 (Aff1 x' y') -> x' = x /\ y' = y.
+Proof.
+  unfold g1_from_ints.
+  destruct (_ || _); [discriminate|]. destruct (_ || _); [discriminate|].
+  destruct (_ && _); [discriminate|]. destruct (_ =? _); [|discriminate].
+  intros [= -> ->]. auto.
+Qed.
+
+(* the point returned for a digest h has the FIRST x >= h mod P for which x^3 + 3 is a square:
+   every smaller candidate was rejected, and the number of increments is that offset *)
+Theorem hash_to_point_first fuel h r : hash_to_point P (mod_sqrt P) fuel h = Some r ->
+  exists n y, hash_to_point_run P (mod_sqrt P) fuel h = Some (n, r) /\ 0 <= n /\
+    r = R1 (Aff1 (h mod P + n) y) /\ valid1 P (Aff1 (h mod P + n) y) = true /\
+    forall i, 0 <= i < n ->
+      mod_sqrt P ((h mod P + i) * (h mod P + i) * (h mod P + i) + curveB) = None.
+Proof.
+  intros H. pose proof (hash_to_point_on_curve _ _ _ H) as [x' [y' [-> V]]].
+  unfold hash_to_point in H. unfold hash_to_point_run.
+  rewrite <- hash_run_loop in H.
+  destruct (hash_run P (mod_sqrt P) fuel (h mod P)) as [[n r]|] eqn:Er; [|discriminate].
+  cbn [option_map snd] in H. injection H as ->.
+  apply hash_run_first in Er. destruct Er as [Hn [Hnone [y [Hy Hr]]]].
+  symmetry in Hr. apply g1_from_ints_x in Hr. destruct Hr as [-> ->].
+  exists n, y. split; [reflexivity|]. split; [lia|]. split; [reflexivity|]. split; assumption.
+Qed.
+
+Theorem hash_to_point_run_result fuel h n r :
+  hash_to_point_run P (mod_sqrt P) fuel h = Some (n, r) -> hash_to_point P (mod_sqrt P) fuel h = Some r.
+Proof.
+  unfold hash_to_point_run, hash_to_point. intros H. rewrite <- hash_run_loop, H. reflexivity.
+Qed.
+
 (* ================================================================== *)
 (* F_p[i]: the model's square-and-multiply loop, x2y, the bounded hexRoot search *)
 Lemma mul2_range p a b : 0 < p -> ok2 p (mul2 p a b).
@@ -676,12 +735,12 @@ Theorem decompress1_total m : m <> [] ->
   | R1 Inf1 => True
   | R1 (Aff1 x y) => 0 <= x < P /\ 0 <= y < P /\ (y * y) mod P = (x * x * x + 3) mod P
   | Err1 => True
-  | Panic1 | Hang1 => False
+  | Panic1 | Hang1 | Nil1 => False
   end.
 Proof.
   intros Hm. destruct P_facts as [F1 [F2 F3]].
   pose proof (decompress1_total_gen P m ltac:(lia) Hm) as T.
-  destruct (decompress1 P (mod_sqrt P) m) as [[|x y]| | |]; try exact T; try exact I.
+  destruct (decompress1 P (mod_sqrt P) m) as [[|x y]| | | |]; try exact T; try exact I.
   apply valid1_iff. exact T.
 Qed.
 
@@ -810,10 +869,14 @@ Section Ext.
   Proof.
     induction fuel as [|f IH]; intros x; cbn [hash_loop]; [reflexivity|]. rewrite Hms, IH. reflexivity.
   Qed.
+  Lemma hash_run_ext fuel : forall x, hash_run p ms fuel x = hash_run p ms' fuel x.
+  Proof.
+    induction fuel as [|f IH]; intros x; cbn [hash_run]; [reflexivity|]. rewrite Hms, IH. reflexivity.
+  Qed.
   Lemma agree_ext c : agree p ms sq c = agree p ms' sq' c.
   Proof.
-    destruct c; cbn [agree]; unfold agree_dec2, dec2, hash_to_point;
-      rewrite ?decompress1_ext, ?decompress2_ext, ?hash_loop_ext; reflexivity.
+    destruct c; cbn [agree]; unfold agree_dec2, dec2, hash_to_point, hash_to_point_run;
+      rewrite ?decompress1_ext, ?decompress2_ext, ?hash_loop_ext, ?hash_run_ext; reflexivity.
   Qed.
   Lemma judge_ext c : judge p ms sq c = judge p ms' sq' c.
   Proof. unfold judge. rewrite agree_ext. reflexivity. Qed.
@@ -864,20 +927,25 @@ Theorem spec_sound c : spec P c = true ->
       | R2 (Aff2 x y) => ok2 P x /\ ok2 P y /\ mul2 P y y = add2 P (mul2 P (mul2 P x x) x) twistB
       | _ => False
       end
-  | CHash _ pt rep =>
+  | CHash _ pt rep | CHashRun _ _ pt rep =>
       exists x y, pt = R1 (Aff1 x y) /\ rep = pt /\
         0 <= x < P /\ 0 <= y < P /\ (y * y) mod P = (x * x * x + 3) mod P
   end.
 Proof.
-  destruct c as [pt c d|pt c d|m d|m d|h pt rep]; cbn [spec]; intros H.
+  destruct c as [pt c d|pt c d|m d|m d|h pt rep|h run pt rep]; cbn [spec]; intros H.
   - apply res1_eqb_R1. exact H.
   - apply res2_eqb_R2. exact H.
-  - destruct d as [[|x y]| | |]; try exact I; try discriminate. apply valid1_iff. exact H.
+  - destruct d as [[|x y]| | | |]; try exact I; try discriminate. apply valid1_iff. exact H.
   - destruct d as [[|x y]| | |]; try exact I; try discriminate. apply valid2_iff. exact H.
   - apply andb_true_iff in H. destruct H as [H1 H2].
-    destruct pt as [[|x y]| | |]; try discriminate.
+    destruct pt as [[|x y]| | | |]; try discriminate.
     exists x, y. split; [reflexivity|]. split; [|apply valid1_iff; exact H2].
-    destruct rep as [q| | |]; cbn [res1_eqb] in H1; try discriminate.
+    destruct rep as [q| | | |]; cbn [res1_eqb] in H1; try discriminate.
+    apply point1_eqb_eq in H1. congruence.
+  - apply andb_true_iff in H. destruct H as [H1 H2].
+    destruct pt as [[|x y]| | | |]; try discriminate.
+    exists x, y. split; [reflexivity|]. split; [|apply valid1_iff; exact H2].
+    destruct rep as [q| | | |]; cbn [res1_eqb] in H1; try discriminate.
     apply point1_eqb_eq in H1. congruence.
 Qed.
 
@@ -889,10 +957,12 @@ Theorem spec_holds_of_model :
      spec P (CRound2 (Aff2 x y) c (dec2 P (sqrt_gfp2 P) (compress2 (Aff2 x y)) true)) = true) /\
   (forall m, m <> [] -> spec P (CDec1 m (decompress1 P (mod_sqrt P) m)) = true) /\
   (forall m o, m <> [] -> spec P (CDec2 m (dec2 P (sqrt_gfp2 P) m o)) = true) /\
-  (forall fuel h r, hash_to_point P (mod_sqrt P) fuel h = Some r -> spec P (CHash h r r) = true).
+  (forall fuel h r, hash_to_point P (mod_sqrt P) fuel h = Some r -> spec P (CHash h r r) = true) /\
+  (forall fuel h n r, hash_to_point_run P (mod_sqrt P) fuel h = Some (n, r) ->
+     spec P (CHashRun h n r r) = true).
 Proof.
   destruct P_facts as [F1 [F2 F3]].
-  split; [|split; [|split; [|split]]].
+  split; [|split; [|split; [|split; [|split]]]].
   - intros HP x y c V. cbn [spec]. apply valid1_iff in V. destruct V as [Hx [Hy E]].
     rewrite (g1_roundtrip HP x y Hx Hy E). apply res1_eqb_R1. reflexivity.
   - intros HP x y c V Hy. cbn [spec]. unfold dec2.
@@ -903,6 +973,9 @@ Proof.
     pose proof (decompress2_total_gen P (fun _ _ => o) m ltac:(lia) Hm) as T.
     destruct (decompress2 P (sqrt_gfp2 P) (fun _ _ => o) m); try exact T; try reflexivity; contradiction.
   - intros fuel h r H. apply hash_to_point_on_curve in H. destruct H as [x [y [-> V]]].
+    cbn [spec]. rewrite V. cbn [res1_eqb point1_eqb]. rewrite !Z.eqb_refl. reflexivity.
+  - intros fuel h n r H. apply hash_to_point_run_result, hash_to_point_on_curve in H.
+    destruct H as [x [y [-> V]]].
     cbn [spec]. rewrite V. cbn [res1_eqb point1_eqb]. rewrite !Z.eqb_refl. reflexivity.
 Qed.
 
@@ -929,4 +1002,20 @@ Proof.
   rewrite (decompress2_ext P (sqrt_gfp2 P) (sqrt_gfp2_big P))
     by (intros; symmetry; apply sqrt_gfp2_big_eq).
   vm_compute. reflexivity.
+Qed.
+
+(* ---------------- a long try-and-increment run ---------------- *)
+(* the longest run of the committed corpus harness/cmd/c04/longruns.json: the message
+   "verif-c04-580506951" (h = its SHA-256 digest) needs 35 increments; the model finds the point
+   (computed through the BigZ mirror, transported by [hash_run_ext]) *)
+Example hash_long_run_example :
+  let h := 31538168635880528272947259340879919360163325398046791424106931151762116451838 in
+  let x := 9649925764041253050700853595622644271467014240748967761417893257116890243290 in
+  let y := 10497044682341762664062784209602949105325083559917830597724025761412343081982 in
+  hash_to_point_run P (mod_sqrt P) 256 h = Some (35, R1 (Aff1 x y)) /\ x = h mod P + 35 /\
+  valid1 P (Aff1 x y) = true.
+Proof.
+  cbv zeta. unfold hash_to_point_run.
+  rewrite (hash_run_ext P (mod_sqrt P) (mod_sqrt_big P)) by (intros; symmetry; apply mod_sqrt_big_eq).
+  split; [vm_compute; reflexivity|]. split; vm_compute; reflexivity.
 Qed.
